@@ -32,6 +32,40 @@ kn = ["| property | key | what fails | why not repaired here |", "|---|---|---|-
 for f in kf:
     if f["status"] == "known":
         kn.append("| %s | `%s` | %s | %s |" % (f["property"], f["key"], f["what"].replace("|", "/"), f.get("why_not_repaired", "")))
+STATIC = {
+ "C01": ("Syntax (16-byte alphabet), StrLit, Faults + generated MC_Faults", "byte strings -> 22 lexer / parser entry points + 9 placements in files; single / double faults of 4 layouts, corpus whole / cut / token-substituted -> whole-document walker in child processes"),
+ "C02": ("XRef", "multi-revision files (table / stream / hybrid), merged table vs NewestMention"),
+ "C03": ("Syntax, Spelling, StrLit, Literals", "token boundaries, spellings, literal strings, hex strings / names / numbers vs spec-computed values and the reference parser"),
+ "C04": ("Serializer", "class expansion to all bytes / followers, read back by the library and the reference parser"),
+ "C05": ("Filters", "reference encoders -> library decoders, chains, predictor geometries"),
+ "C06": ("Crypt, Kdf", "independent security handler writes every configuration; password search per hash-iteration pattern; third-party fixtures"),
+ "C07": ("PageTree", "trees as files (all shapes <= 6 nodes, chains of 12 and 16 levels); get_page, boxes (4 coordinates), resources"),
+ "C08": ("Content, ContentTable", "serialize -> parse, operator table, operand leak"),
+ "C09": ("Store, StoreTrace, PdfSystem", "Engine A call paths; Engine B random long histories validated by TLC; multi-session paths"),
+ "C10": ("Builder", "built documents -> independent structural validator + reload"),
+ "C11": ("ObjStm", "twin objects direct / compressed, packed and many-member containers"),
+ "C12": ("CacheView", "call sequences x 4 cache configurations vs the uncached answer"),
+ "C13": ("Resolver, ResolverTrace", "Engine C: baton scheduler on real threads; Engine B: free-running traces validated by TLC; real SyncCache probe"),
+ "C14": ("Schema + generated MC_Schema", "every graph / boundary / shape assignment as a file -> walker in child processes (watchdog, address-space cap)"),
+ "C15": ("Derive", "every typed model of the generated registry + hand-written reader / writer pairs"),
+ "C16": ("Filters", "library encoders -> library decoder and reference decoders"),
+ "C17": ("FileLayout", "differential snapshot vs the unprefixed reading (thorough: every position 0..1019 x 5 prefix tails)"),
+ "C18": ("Dangling", "every optional / required field of the registry x carrier x mode, nested chains"),
+ "C19": ("Widths, CMap", "/W arrays and CMaps as files"),
+ "C20": ("Import", "source graphs -> (inspect) -> Importer -> reload; closure, single copy, pruning, stream content"),
+}
+st = ["| id | modules (spec/) | quick tier: TLC states / cases replayed / wall | binding as built | level |", "|---|---|---|---|---|"]
+for pid in sorted(STATIC):
+    ep = os.path.join(ROOT, "evidence", pid + ".json")
+    nums = "?"
+    lvl = "?"
+    if os.path.exists(ep):
+        e = json.load(open(ep))
+        c = e["coverage"]
+        lvl = e["level"].replace("_", " ")
+        nums = "%s / %s / %.0f s (%s)" % ("{:,}".format(c.get("states", 0)), "{:,}".format(c.get("traces_validated_against_impl", 0)), e["wall_s"], e["tier"])
+    st.append("| %s | %s | %s | %s | %s |" % (pid, STATIC[pid][0], nums, STATIC[pid][1], lvl))
+sec = sec.replace("@@STATUS@@", "\n".join(st))
 sec = sec.replace("@@FIXED@@", "\n".join(fx)).replace("@@KNOWN@@", "\n".join(kn))
 path = os.path.join(ROOT, "DESIGN.md")
 s = open(path).read()
